@@ -364,7 +364,7 @@ def run(ctx):
         ok = run_history(ctx, h)
         sig = (h["kind"], json.dumps([(c["kind"]) for c in h["spec"].get("electric", []) + h["spec"].get("mechanical", [])]), tuple(c["n"] for c in h["calcs"]))
         ctx.case_done(signature=sig if ok else None, sample={"kind": h["kind"], "series_lengths": [c["n"] for c in h["calcs"]], "queries": h["query_between"]} if ci in (ncorp, ncorp + 1) else None)
-    for i in range(ctx.n(30, 400)):
+    for i in range(ctx.n(50, 400)):
         run_frontend_history(ctx, ctx.rng, i)
     ctx.extra["corpus_cases"] = ncorp
 
